@@ -3472,11 +3472,17 @@ impl SctpInner {
         let effective_window = burst_constrained_cwnd.min(rwnd_val);
 
         // 2. Retransmit Phase (Priority)
+        // Bytes the peer may still be holding: every chunk sent and not yet acknowledged,
+        // including those a T3 expiry took out of flight_size without retransmitting them.
+        let mut unacked_bytes = 0usize;
         {
             let mut sent = self.sent_queue.lock();
             let mut recovery_tx = self.fast_recovery_transmit.load(Ordering::Relaxed);
 
             for record in sent.values_mut() {
+                if !record.acked && !record.abandoned {
+                    unacked_bytes += record.payload.len();
+                }
                 if record.needs_retransmit {
                     if recovery_tx {
                         self.fast_recovery_transmit.store(false, Ordering::Relaxed);
@@ -3501,8 +3507,11 @@ impl SctpInner {
         // 3. Send New Data - batch drain outbound queue under one lock
         let mut new_data_sent = false;
         {
-            let available =
-                effective_window.saturating_sub(self.flight_size.load(Ordering::Relaxed));
+            // New data must fit into what is left of the peer's advertised window after
+            // everything still unacknowledged (RFC 4960 6.1 A / 6.2.1 D ii).
+            let available = effective_window
+                .saturating_sub(self.flight_size.load(Ordering::Relaxed))
+                .min(rwnd_val.saturating_sub(unacked_bytes));
             let mut budget = available;
             let mut batch: Vec<OutboundChunk> = Vec::new();
             let mut dequeued_bytes = 0usize;
